@@ -215,11 +215,21 @@ impl IndentationVisitor {
         }
 
         let between = &self.src[left_end..expr_start];
+        // Apart from whitespace and the `=`, the gap can only hold
+        // comments. Don't touch those: a comment may itself contain
+        // `=`, and must not be deleted.
+        if between.contains("//") {
+            return;
+        }
         if let Some(eq_offset) = between.find('=') {
             let eq_abs = left_end + eq_offset;
 
+            // As with the text after `=`, leave a gap that spans
+            // lines alone. It may hold a comment (which can itself
+            // contain `=`), and joining lines would invalidate the
+            // line numbers that the indentation edits are based on.
             let before_eq = &self.src[left_end..eq_abs];
-            if before_eq != " " {
+            if before_eq != " " && !before_eq.contains('\n') {
                 self.span_edits.push(SpanEdit {
                     start_offset: left_end,
                     end_offset: eq_abs,
